@@ -524,7 +524,6 @@ fn convert_intensity(p: &mut Point) {
 struct Range {
     min: f64,
     max: f64,
-    inv_range: f64,
 }
 
 impl Range {
@@ -577,12 +576,7 @@ impl Range {
         if range.is_nan() || range < 0.0 {
             Error::invalid(format!("Found invalid range: min={min}, max={max}"))?;
         }
-        let inv_range = 1.0 / range;
-        Ok(Self {
-            min,
-            max,
-            inv_range,
-        })
+        Ok(Self { min, max })
     }
 
     fn intensity_from_pointcloud(pc: &PointCloud) -> Result<Option<Self>> {
@@ -679,7 +673,18 @@ impl Range {
     #[inline]
     fn normalize(&self, value: f64) -> f32 {
         let clamped = value.clamp(self.min, self.max);
-        let normalized = (clamped - self.min) * self.inv_range;
+        let range = self.max - self.min;
+        // Divide by the range instead of multiplying with its reciprocal:
+        // the reciprocal of a very small range is infinite and produced infinite or NaN values.
+        let normalized = if range == 0.0 {
+            // All values are the same, there is nothing to normalize
+            0.0
+        } else if range.is_finite() {
+            (clamped - self.min) / range
+        } else {
+            // The size of the range is not representable, calculate with halved values
+            (clamped * 0.5 - self.min * 0.5) / (self.max * 0.5 - self.min * 0.5)
+        };
         normalized as f32
     }
 }
